@@ -8,7 +8,7 @@ import re
 
 TX_OPS = ("exec", "multi", "sudo-mint", "sudo-wasm", "wasm-sudo", "h-inst", "h-exec", "h-mig", "h-send")
 READ_OPS = ("q-bal", "q-all", "q-sup", "q-smart", "q-raw", "q-info", "q-code", "q-ext", "cdata", "wdump", "cstore",
-            "dump", "trace", "block-info", "rawhash")
+            "dump", "trace", "block-info", "rawhash", "cs-get")
 
 # Rust's char::is_whitespace (Unicode White_Space)
 WHITE = set([0x9, 0xA, 0xB, 0xC, 0xD, 0x20, 0x85, 0xA0, 0x1680, 0x2028, 0x2029, 0x202F, 0x205F, 0x3000] +
@@ -273,7 +273,7 @@ def pred_c01(ops, impl):
             # anything else (store, block, init-bal, app switch …) may legitimately change the storage
             last_hash, pending = None, None
     import pred_wasm2
-    return pred_wasm2.supply_conserved(ops, impl)
+    return pred_wasm2.supply_conserved(ops, impl) or pred_wasm2.own_writes_persist(ops, impl)
 
 
 def pred_c02(ops, impl):
@@ -293,7 +293,8 @@ def pred_c02(ops, impl):
                 if a == app and (mk + "=") in out:
                     return "marker %s written by a failing contract call of op %d `%s` is present in the dump after op %d" % (
                         mk, at, ops[at][:160], n)
-    return None
+    import pred_wasm2
+    return pred_wasm2.must_succeed(ops, impl)
 
 
 def pred_c03(ops, impl):
@@ -573,6 +574,48 @@ def pred_c12(ops, impl):
         if not items or len(items) < 3 or not isinstance(items[2], list) or not items[2]:
             continue
         m = items[2]
+        if m[0] == "exec" and len(m) > 2 and isinstance(m[2], list):
+            # admin messages sent by a contract: when every Migrate / UpdateAdmin / ClearAdmin aimed at contract c in the
+            # whole tree certainly fails (its migrate script fails), ContractInfo of c is what it was before
+            subs = []
+
+            def walk_msg(x):
+                if not isinstance(x, list) or not x:
+                    return
+                if x[0] in ("upd", "clr", "mig", "inst"):
+                    subs.append(x)
+                sc = msg_script(x)
+                if isinstance(sc, list):
+                    for a in sc:
+                        if isinstance(a, list) and a:
+                            if a[0] == "sub" and len(a) >= 5:
+                                walk_msg(a[4])
+                                for r in (a[3] if isinstance(a[3], list) else []):
+                                    if isinstance(r, list) and r and r[0] == "sub" and len(r) >= 5:
+                                        walk_msg(r[4])
+                                    elif isinstance(r, list) and r and r[0] == "msg" and len(r) >= 2:
+                                        walk_msg(r[1])
+                            elif a[0] == "msg" and len(a) >= 2:
+                                walk_msg(a[1])
+            walk_msg(m)
+            targets = set(x[1] for x in subs if x[0] in ("upd", "clr", "mig") and isinstance(x[1], str))
+            for c in targets:
+                mine = [x for x in subs if x[0] in ("upd", "clr", "mig") and x[1] == c]
+                if not mine or not all(x[0] == "mig" and msg_certainly_fails(x) for x in mine):
+                    continue
+                before = info.get(c)
+                after = None
+                for k in range(n + 1, len(ops)):
+                    tk = ops[k].split()
+                    if tk and tk[0] == "q-info" and tk[1] == c:
+                        after = impl[k]
+                        break
+                    if tk and tk[0] in TX_OPS:
+                        break
+                if before is not None and after is not None and before[1] != "err" and after != before[1]:
+                    return "op %d `%s`: every migration of %s in this transaction fails, yet its ContractInfo changed from %s to %s" % (
+                        n, op[:160], c, before[1], after)
+            continue
         if m[0] not in ("upd", "clr", "mig"):
             continue
         c = m[1]
@@ -657,25 +700,64 @@ def pred_c08(ops, impl):
                 if out != want and out != "err":
                     return "op %d: WasmQuery::Raw(%s, %s) = %s but the contract's state dump holds %s" % (n, t[1], t[2], out, want)
     # a transaction made only of storage operations of one contract leaves the other contracts' dumps alone
-    dumps = {}
-    target = None
+    from predicates import unhex as _unhex, hx as _hx
+
+    def recs_of(txt):
+        return dict(kv.split("=") for kv in txt[1:-1].split(",") if kv)
+
+    def fmt_recs(d):
+        return "[" + ",".join("%s=%s" % (k, d[k]) for k in sorted(d, key=lambda h: _unhex(h) if h != "-" else b"")) + "]"
+
+    dumps = {}         # contract -> last known state dump (text), kept up to date across operations that say what they change
+    stale = set()      # contracts whose state may have changed in a way this predicate does not follow
+    ALL = object()
     for n, (op, out) in enumerate(zip(ops, impl)):
         t = op.split()
         if not t:
             continue
         if t[0] == "exec":
             items = parse_sx(op)
-            target = None
+            target = ALL
             if items and len(items) > 2 and isinstance(items[2], list) and items[2] and items[2][0] == "exec":
                 sc = items[2][2] if len(items[2]) > 2 else []
                 if isinstance(sc, list) and all(isinstance(a, list) and a and a[0] in ("w", "rm", "rd", "rng", "rngk", "fail") for a in sc):
-                    target = items[2][1]
+                    target = None if all(a[0] in ("rd", "rng", "rngk", "fail") for a in sc) else items[2][1]
+            if target is ALL:
+                stale = set(dumps)
+            elif target is not None:
+                stale.add(target)
+        elif t[0] in ("cs-set", "cs-rm") and len(t) >= 3:
+            # App::contract_storage_mut(c): exactly the entry (c, key) changes
+            c = t[1]
+            if out != "ok":
+                stale.add(c)
+            elif c in dumps and c not in stale:
+                d = recs_of(dumps[c])
+                k = _hx(_unhex(t[2]))
+                if t[0] == "cs-set":
+                    d[k] = _hx(_unhex(t[3]))
+                else:
+                    d.pop(k, None)
+                dumps[c] = fmt_recs(d)
+        elif t[0] == "cs-get" and len(t) >= 3 and n > 0 and (out == "none" or out.startswith("some ")):
+            p = ops[n - 1].split()
+            if p and p[0] == "cs-set" and p[1:3] == t[1:3] and impl[n - 1] == "ok" and out != "some " + _hx(_unhex(p[3])):
+                return "op %d: contract_storage(%s).get(%s) = %s right after contract_storage_mut set it to %s" % (n, t[1], t[2], out, p[3])
+            if p and p[0] == "cs-rm" and p[1:3] == t[1:3] and impl[n - 1] == "ok" and out != "none":
+                return "op %d: contract_storage(%s).get(%s) = %s right after contract_storage_mut removed it" % (n, t[1], t[2], out)
+            if t[1] in dumps and t[1] not in stale:
+                want = recs_of(dumps[t[1]]).get(_hx(_unhex(t[2])))
+                got = out[5:] if out.startswith("some ") else None
+                if want != got:
+                    return "op %d: contract_storage(%s).get(%s) = %s but the contract's state holds %s" % (n, t[1], t[2], out, want)
         elif t[0] == "wdump":
             c = t[1]
-            if c in dumps and target is not None and c != target and dumps[c] != out:
-                return "op %d: storage of %s changed (%s -> %s) by a transaction that only wrote storage of %s" % (
-                    n, c, dumps[c][:80], out[:80], target)
+            if c in dumps and c not in stale and dumps[c] != out:
+                return "op %d: storage of %s changed (%s -> %s) by operations that did not write to it" % (n, c, dumps[c][:80], out[:80])
             dumps[c] = out
+            stale.discard(c)
+        elif t[0] not in READ_OPS and t[0] not in ("rawhash", "trace", "dump", "case", "section") and not t[0].startswith("bind"):
+            stale = set(dumps)
     return None
 
 
